@@ -178,6 +178,7 @@ def run(ctx):
             agree = False
             ctx.violation("correspondence", {"op": "randbelow", "library": lib, "n": n, "model": o, "impl_result": res, "word_bits": ks}, site="randbelow", no_input=True)
     ctx.block("rejection-sampling-model-vs-impl", agree, len(ops))
+    successive_independence(ctx)
     # ---- chi-square over real seeds (support only; generous threshold: false alarm probability < 1e-9)
     for gen in ("sha", "rs"):
         cnt = Counter()
@@ -190,6 +191,53 @@ def run(ctx):
         ctx.case(("chi", gen), True)
         if chi > 60:
             ctx.violation("oracle", {"issue": "permute over real seeds is far from uniform", "generator": gen, "chi2_5dof": chi, "counts": {str(k): v for k, v in cnt.items()}}, site="permute")
+
+
+def successive_independence(ctx):
+    """One generator object used for many successive randomisations (as every test does with its helper):
+    marginal and successive-pair frequencies must be uniform (very generous chi-square thresholds; the
+    failure mode looked for is gross: a generator that is re-cloned or re-seeded replays one outcome)."""
+    from permute import utils, stratified, irr
+    x = np.array([1, 2, 3]); grp = np.array([1, 1, 2, 2, 2]); xs = np.array([1, 2, 3, 4, 5]); m = np.array([[1, 2, 3], [4, 5, 6]])
+    helpers = {"permute": (lambda g: tuple(utils.permute(x, g).tolist()), 6),
+               "permute_within_groups": (lambda g: tuple(utils.permute_within_groups(xs, grp, g).tolist()), 12),
+               "permute_rows": (lambda g: tuple(map(tuple, utils.permute_rows(m, g).tolist())), 36)}
+    for gen in ("sha", "rs"):
+        for name, (fn, K) in helpers.items():
+            trials = ctx.n(40, 200) * K
+            g = RecSHA256(ctx.seed * 31 + 7) if gen == "sha" else np.random.RandomState((ctx.seed * 31 + 7) % 2**32)
+            seq = [fn(g) for _ in range(trials)]
+            cnt = Counter(seq); pairs = Counter(zip(seq[:-1], seq[1:]))
+            chi1 = sum((cnt.get(o, 0) - trials / K) ** 2 / (trials / K) for o in cnt) + (K - len(cnt)) * trials / K
+            ep = (trials - 1) / (K * K)
+            chi2 = sum((v - ep) ** 2 / ep for v in pairs.values()) + (K * K - len(pairs)) * ep
+            ctx.case(("succ", gen, name), True); ctx.count(f"successive-draws-{gen}")
+            if len(cnt) < K or chi1 > 8 * K + 80 or chi2 > 3 * K * K + 200:
+                ctx.violation("oracle", {"helper": name, "generator": gen, "issue": "successive randomisations drawn with one generator object are not uniform / independent",
+                                         "distinct_outcomes": len(cnt), "admissible": K, "chi2_marginal": chi1, "chi2_pairs": chi2, "trials": trials,
+                                         "seed": ctx.seed * 31 + 7}, site=name)
+        # inside a test: the rearrangements seen by the statistic over the repetitions of one call
+        seen = []
+        g = RecSHA256(ctx.seed + 11) if gen == "sha" else np.random.RandomState((ctx.seed + 11) % 2**32)
+        reps = ctx.n(480, 2400)
+        r = guarded(stratified.stratified_two_sample, np.array([1, 1, 2, 2, 2]), np.array([0, 1, 0, 1, 1]), np.array([1., 2, 3, 4, 5]),
+                    stat=lambda u: (seen.append(tuple(u.tolist())), 0.0)[1], reps=reps, seed=g, keep_dist=True, secs=120)
+        cnt = Counter(seen[1:])
+        chi = sum((cnt.get(o, 0) - reps / 12) ** 2 / (reps / 12) for o in cnt) + (12 - len(cnt)) * reps / 12
+        ctx.case(("succ-test", gen), True); ctx.count(f"successive-draws-{gen}")
+        if r[0] != "ok" or len(cnt) != 12 or chi > 180:
+            ctx.violation("oracle", {"call": "stratified_two_sample", "generator": gen, "reps": reps,
+                                     "issue": "the rearrangements of successive repetitions are not uniform over the 12 admissible ones",
+                                     "distinct": len(cnt), "chi2": chi, "seed": ctx.seed + 11}, site="stratified_two_sample")
+        seen2 = []
+        g = RecSHA256(ctx.seed + 13) if gen == "sha" else np.random.RandomState((ctx.seed + 13) % 2**32)
+        r = guarded(irr.simulate_ts_dist, np.array([[1, 0, 0], [1, 1, 0]]), None, ctx.n(300, 1500), True, g, secs=120)
+        if r[0] == "ok":
+            vals = Counter(np.round(r[1]["dist"], 9).tolist())
+            ctx.case(("succ-irr", gen), True)
+            if len(vals) < 2:
+                ctx.violation("oracle", {"call": "simulate_ts_dist", "generator": gen, "issue": "every repetition produced the same permuted matrix",
+                                         "dist_values": dict(vals)}, site="simulate_ts_dist")
 
 
 def replay(rep):
